@@ -87,7 +87,7 @@ theorem C12_sound_mismatch (hwf : WF C.wb) (hl : Local C.wb f) (hlg : LocalG C) 
     formula that really raises that class of exception (no hypothesis on the stored results at all). -/
 theorem C12_failed_justified (hwf : WF C.wb) (hl : Local C.wb f) (hlg : LocalG C) (hag : Agree C f)
     (outs : List Nat) (x : Nat) (e : Fail) (hx : (x, e) ∈ (validate C outs).rep.failed) :
-    ∃ j env, C.g j env = .error e := by
+    ∃ j env e', C.g j env = .error e' ∧ (e = e' ∨ e = e'.nested) := by
   have hh : Hyp C f (fun _ => True) :=
     ⟨hwf, hl, hlg, hag, fun _ _ _ _ => trivial, fun _ _ _ _ => .inr trivial, fun _ h => (h trivial).elim⟩
   exact ((BInv.init (C := C) (f := f) (Bad := fun _ => True) outs).iter hh (fuelFor C outs)).why x e hx
@@ -101,7 +101,7 @@ theorem C12_sound (hwf : WF C.wb) (hl : Local C.wb f) (hlg : LocalG C) (hag : Ag
   cases hm : (validate C outs).rep.failed with
   | nil => rfl
   | cons p ps =>
-    obtain ⟨j, env, hj⟩ := C12_failed_justified hwf hl hlg hag outs p.1 p.2 (by rw [hm]; exact List.mem_cons_self ..)
+    obtain ⟨j, env, e', hj, _⟩ := C12_failed_justified hwf hl hlg hag outs p.1 p.2 (by rw [hm]; exact List.mem_cons_self ..)
     obtain ⟨v, hv⟩ := ht j env
     rw [hv] at hj; cases hj
 
@@ -135,7 +135,7 @@ theorem C12_blame_total (hwf : WF C.wb) (hl : Local C.wb f) (hlg : LocalG C) (ha
   cases hm : (validate C outs).rep.failed with
   | nil => rfl
   | cons p ps =>
-    obtain ⟨j, env, hj⟩ := C12_failed_justified hwf hl hlg hag outs p.1 p.2 (by rw [hm]; exact List.mem_cons_self ..)
+    obtain ⟨j, env, e', hj, _⟩ := C12_failed_justified hwf hl hlg hag outs p.1 p.2 (by rw [hm]; exact List.mem_cons_self ..)
     obtain ⟨v, hv⟩ := ht j env
     rw [hv] at hj; cases hj
 
